@@ -333,8 +333,49 @@ def replay_lazy(model, params, clause, info):
             "entry": {"module": "contracts.C06_lazy_indexing", "function": "replay_lazy", "args": [model, list(params), clause, info]}}
 
 
+def _active_dims_direct():
+    """ARD kernels with active_dims (subsets, reordered subsets, full-length permutations and repeats) against the same kernel WITHOUT active_dims applied to the
+    explicitly selected columns x[..., dims]: full matrix, diagonal, lazy and eager evaluation"""
+    import torch
+    import gpytorch
+    torch.manual_seed(3)
+    bad = []
+    X1, X2 = torch.randn(5, 3, dtype=torch.double), torch.randn(4, 3, dtype=torch.double)
+    for dims in ([0], [2, 0], [1, 2], [0, 1, 2], [1, 0, 2], [2, 0, 1], [2, 2, 1]):
+        for name, mk in (("rbf_ard", lambda nd, ad: gpytorch.kernels.RBFKernel(ard_num_dims=nd, active_dims=ad)), ("matern_ard", lambda nd, ad: gpytorch.kernels.MaternKernel(nu=1.5, ard_num_dims=nd, active_dims=ad)),
+                         ("linear_ard", lambda nd, ad: gpytorch.kernels.LinearKernel(ard_num_dims=nd, active_dims=ad))):
+            k_act, k_ref = mk(len(dims), tuple(dims)).double(), mk(len(dims), None).double()
+            ls = torch.linspace(0.4, 1.7, len(dims), dtype=torch.double).reshape(1, -1)
+            for k in (k_act, k_ref):
+                if hasattr(k, "lengthscale") and k.has_lengthscale:
+                    k.lengthscale = ls
+                else:
+                    k.variance = ls
+            idx = torch.tensor(dims)
+            with torch.no_grad():
+                want = k_ref(X1[:, idx], X2[:, idx]).to_dense()
+                wantd = k_ref(X1[:, idx], X1[:, idx], diag=True)
+                for lazy in (True, False):
+                    with gpytorch.settings.lazily_evaluate_kernels(lazy):
+                        got = k_act(X1, X2).to_dense()
+                        gotd = k_act(X1, X1, diag=True)
+                        gots = k_act(X1).to_dense()
+                    if not torch.allclose(got, want, atol=1e-10):
+                        bad.append(f"{name} active_dims={dims} lazy={lazy}: max |k(x1,x2) - k_ref(x1[:,dims],x2[:,dims])| = {(got - want).abs().max().item():.2e}")
+                    if not torch.allclose(gotd, wantd, atol=1e-10):
+                        bad.append(f"{name} active_dims={dims} lazy={lazy}: diag differs by {(gotd - wantd).abs().max().item():.2e}")
+                    if not torch.allclose(gots, k_ref(X1[:, idx]).to_dense(), atol=1e-10):
+                        bad.append(f"{name} active_dims={dims} lazy={lazy}: k(x) differs")
+    return bad
+
+
 def replay_call(model, params, clause, info):
     from bounded import C06_enumeration
+    if "active_columns" in clause or clause.startswith("call."):
+        bad = _active_dims_direct()
+        if bad:
+            return {"violates": True, "detail": "; ".join(bad[:4])[:700],
+                    "entry": {"module": "contracts.C06_lazy_indexing", "function": "replay_call", "args": [model, list(params), clause, info]}}
     r = C06_enumeration.run("quick", 0, only="active_dims")
     return {"violates": bool(r["violations"]), "detail": "; ".join(f"{v['key']}: {v['detail']}" for v in r["violations"][:5])[:700] or "active_dims / diag / lazy-vs-eager agree on the real code",
             "entry": {"module": "contracts.C06_lazy_indexing", "function": "replay_call", "args": [model, list(params), clause, info]}}
@@ -367,3 +408,56 @@ def composite_getitem(c, cls, n):
     got = c.getattr(new, "kernels")
     c.prove("composite_getitem.parts_are_the_indexed_parts", z3.BoolVal(isinstance(got, VList) and len(got.items) == n and all(a is b for a, b in zip(got.items, subs))))
     c.prove("composite_getitem.each_part_indexed_once_with_the_index", z3.BoolVal(sorted(i for i, _ in asked) == list(range(n)) and all(ix is idx for _, ix in asked)))
+
+
+@case("C06", clause="kernel_call", name="kernel_call_diag_batched_kernel", expand=lambda ix: [(ate,) for ate in (False, True)], replay=lambda *a: replay_diag_batched(*a), functions=[f"{KM}.Kernel.__call__"])
+def kernel_call_diag_batched_kernel(c, forward_ignores_diag):
+    """a kernel with batch shape (B,) called on unbatched inputs (n x d) with diag=True: the result is the (B, n) tensor of the B diagonals -- for EVERY B and n, B == n
+    included (whether forward honoured the diag flag is a matter of the result's RANK relative to the batch dimensions, never of a coincidence of extents);
+    if forward ignored the flag and returned the (B, n, n) matrices, their diagonals are taken"""
+    it, ctx = c.it, c.ctx
+    n, d, B = c.size("n"), c.size("d"), c.size("B")
+    c.assume(z3.And(n.t >= 1, B.t >= 1))
+    ci = it.index.get_class(f"{KM}.Kernel")
+    o = VObj(ci, label="Kernel")
+    o.fields.update({"_parameters": VDict(), "_buffers": VDict({"active_dims": NONE}), "_modules": VDict(), "_priors": VDict(), "_constraints": VDict(),
+                     "_added_loss_terms": VDict(), "training": TRUE, "_batch_shape": size_tuple([B.t]), "ard_num_dims": NONE, "eps": VNum(1e-6), "distance_module": NONE})
+    KD = sym_tensor("forward_diag", [B.t, n.t])
+    KF = sym_tensor("forward_full", [B.t, n.t, n.t])
+    fwd = []
+
+    def call_hook(it_, ctx_, fi, args, kwargs):
+        if isinstance(fi, tuple) or not args or args[0] is not o:
+            return NotImplemented
+        if fi.name == "forward":
+            fwd.append(dict(kwargs))
+            return KF if forward_ignores_diag else KD
+        return NotImplemented
+
+    it.call_hooks.append(call_hook)
+    ctx.classattrs[("gpytorch.settings.debug", "_state")] = FALSE
+    x = sym_tensor("x", [n.t, d.t])
+    res = it.call(ctx, c.getattr(o, "__call__"), [x], {"diag": TRUE})
+    b, i = ivar("b"), ivar("i")
+    c.assume(z3.And(b >= 0, b < B.t, i >= 0, i < n.t))
+    ok = hasattr(res, "dims") and len(res.dims) == 2
+    want = KF.at([b, i, i]) if forward_ignores_diag else KD.at([b, i])
+    c.prove("call.diag.batched_kernel.result_is_the_B_by_n_diagonals", z3.And(res.dims[0].size == B.t, res.dims[1].size == n.t, res.at_dims([b, i]) == want) if ok else z3.BoolVal(False),
+            rank=(len(res.dims) if hasattr(res, "dims") else None))
+
+
+def replay_diag_batched(model, params, clause, info):
+    import torch
+    import gpytorch
+    bad = []
+    for B, n in ((4, 4), (4, 5), (3, 3), (2, 6)):
+        k = gpytorch.kernels.ScaleKernel(gpytorch.kernels.RBFKernel(batch_shape=torch.Size([B])), batch_shape=torch.Size([B])).double()
+        k.base_kernel.lengthscale = torch.linspace(0.3, 1.2, B, dtype=torch.double).reshape(B, 1, 1)
+        x = torch.rand(n, 2, dtype=torch.double)
+        with torch.no_grad():
+            dg = k(x, diag=True)
+            full = k(x).to_dense().diagonal(dim1=-1, dim2=-2)
+        if dg.shape != full.shape or not torch.allclose(dg, full, atol=1e-12):
+            bad.append(f"kernel batch ({B},), x of shape ({n}, 2): k(x, diag=True) has shape {tuple(dg.shape)}, the diagonals of k(x) have shape {tuple(full.shape)}")
+    return {"violates": bool(bad), "detail": "; ".join(bad) or "k(x, diag=True) is the diagonal of k(x) for batched kernels on unbatched inputs (real code)",
+            "entry": {"module": "contracts.C06_lazy_indexing", "function": "replay_diag_batched", "args": [model, list(params), clause, info]}}
